@@ -40,7 +40,7 @@ ASSUMPTIONS = [
     "to the options the re-parsed quantizer lost (behavioural test against a "
     "directly built quantizer without them)",
 ]
-BUDGET_S = {"quick": 120, "thorough": 840}
+BUDGET_S = {"quick": 70, "thorough": 840}
 _LITS = ["lit:int", "lit:float", "lit:bool", "lit:none", "lit:str", "lit:list",
          "lit:list1"]
 _REQ = (["stub", "order", "exotic", "quant", "str_lattice", "str_hyp",
